@@ -96,6 +96,18 @@ func c06CellOp(c *boc.Cell, o sx.V) (out sx.V) {
 	case "rint":
 		v, err := c.ReadInt(a[0].I())
 		return errOr(err, sx.Z(v))
+	case "rbiguint":
+		v, err := c.ReadBigUint(a[0].I())
+		if err != nil {
+			return sx.A("err")
+		}
+		return sx.BigN(v)
+	case "rbigint":
+		v, err := c.ReadBigInt(a[0].I())
+		if err != nil {
+			return sx.A("err")
+		}
+		return sx.BigZ(v)
 	case "rbytes":
 		v, err := c.ReadBytes(a[0].I())
 		return errOr(err, sx.Bytes(v))
@@ -434,6 +446,61 @@ func (d *dscript) observe(i int, which int) {
 	}
 }
 
+// advance the read cursor of register j by 0..available bits (nothing, everything, or a random
+// part) through randomly chosen readers: a nested bit string that has been read from before it is
+// written must still be written as a whole
+func (d *dscript) advance(j int) {
+	g := &d.g[j]
+	avail := len(g.bits) - g.rcur
+	a := 0
+	switch d.r.Intn(5) {
+	case 0:
+	case 1:
+		a = avail
+	default:
+		if avail > 0 {
+			a = d.r.Intn(avail + 1)
+		}
+	}
+	for a > 0 {
+		k := 1 + d.r.Intn(a)
+		if k > 64 {
+			k = 64
+		}
+		chunk := g.bits[g.rcur : g.rcur+k]
+		switch d.r.Intn(5) {
+		case 0:
+			k, chunk = 1, chunk[:1]
+			d.on(j, op("rbit"), sx.B(chunk == "1").String())
+			g.rcur++
+		case 1:
+			d.skip(j, k)
+		case 2:
+			v := new(big.Int)
+			v.SetString(chunk, 2)
+			d.on(j, op("ruint", sx.Nat(k)), sx.BigN(v).String())
+			g.rcur += k
+		case 3:
+			d.on(j, op("rbits", sx.Nat(k)), sx.Bits(chunk).String())
+			g.rcur += k
+		default:
+			if k >= 8 {
+				k = 8
+				v := new(big.Int)
+				v.SetString(chunk[:8], 2)
+				d.on(j, op("rbyte"), sx.BigN(v).String())
+				g.rcur += 8
+			} else {
+				d.skip(j, k)
+			}
+		}
+		a -= k
+	}
+	if g.rcur > 0 {
+		d.tags["argcur"] = true
+	}
+}
+
 // read everything back from the start with the integer / bit readers
 func (d *dscript) readBack(i int) {
 	g := &d.g[i]
@@ -463,7 +530,11 @@ func (d *dscript) readBack(i int) {
 		op("rbits", sx.Nat(1)), op("rbyte"), op("rbytes", sx.Nat(1)), op("rbiguint", sx.Nat(1)),
 		op("rbigint", sx.Nat(1)), op("rbigint", sx.Nat(9)), op("runary"), op("skip", sx.Nat(1)), op("puint", sx.Nat(1)),
 		op("rint", sx.Nat(1+d.r.Intn(64))), op("ruint", sx.Nat(1+d.r.Intn(64)))}
-	d.on(i, probes[d.r.Intn(len(probes))], "'err")
+	pr := probes[d.r.Intn(len(probes))]
+	if g.cell && pr.Head() == "rbyte" { // boc.Cell has no ReadByte
+		pr = op("rbytes", sx.Nat(1))
+	}
+	d.on(i, pr, "'err")
 	if d.r.Chance(50) {
 		d.on(i, op("rint", sx.Nat(1)), "'err")
 	}
@@ -590,12 +661,78 @@ func buildDerived(r *prng.R) *dscript {
 			l = strings.Repeat("0", w)
 			d.tags["zeros"] = true
 		}
-		switch r.Intn(8) {
+		switch r.Intn(12) {
+		case 8:
+			// the argument is the destination itself, read from before
+			d.advance(tgt)
+			if r.Bool() {
+				d.appendReg(tgt, tgt)
+			} else {
+				if r.Chance(80) {
+					d.grow(tgt, len(d.g[tgt].bits)+r.Intn(3))
+				}
+				d.writeBitString(tgt, tgt)
+			}
+			d.observe(tgt, 0)
+			d.tags["self"] = true
+		case 9:
+			// the argument is the source (BitString or Cell), whose cursor stands after the window
+			if d.tags["raw"] {
+				d.write(tgt, l)
+				break
+			}
+			if r.Bool() {
+				d.appendReg(tgt, 0)
+			} else {
+				d.grow(tgt, len(d.g[0].bits))
+				d.writeBitString(tgt, 0)
+			}
+			d.observe(tgt, 0)
+			d.observe(0, 0)
+			if d.g[0].rcur > 0 {
+				d.tags["argcur"] = true
+			}
+		case 10, 11:
+			// Cell.WriteBitString: destination register 4 is a cell (or, 1 in 4, a plain bit string);
+			// the argument is a fresh string read from before, or the derived string itself
+			if r.Chance(75) {
+				d.newCell(4)
+			} else {
+				d.newReg(4, 200)
+			}
+			d.writeChunks(4, biasedBits(r, r.Intn(20), 20))
+			arg := 3
+			if r.Chance(35) {
+				arg = tgt
+			} else {
+				d.newReg(3, w)
+				d.writeChunks(3, l)
+			}
+			d.advance(arg)
+			d.writeBitString(4, arg)
+			d.observe(4, 0)
+			d.observe(4, 1)
+			d.observe(arg, 0)
+			if r.Bool() {
+				// and once more after a further read of the argument
+				d.advance(arg)
+				d.writeBitString(4, arg)
+				d.observe(4, 0)
+			}
+			d.readBack(4)
+			d.tags["celldst"] = true
 		case 0, 1, 2:
 			// Append(other)
 			d.newReg(3, w+r.Intn(3))
 			d.writeChunks(3, l)
+			if r.Chance(65) {
+				d.advance(3)
+			}
 			d.appendReg(tgt, 3)
+			d.observe(tgt, 0)
+			if r.Chance(60) {
+				d.observe(3, 0) // the argument keeps its bits and its cursor
+			}
 			d.tags["append"] = true
 		case 3:
 			// WriteBitString(other) after Grow, or without (overflow, prefix intact)
@@ -608,7 +745,14 @@ func buildDerived(r *prng.R) *dscript {
 				}
 				d.grow(tgt, gk)
 			}
+			if r.Chance(65) {
+				d.advance(3)
+			}
 			d.writeBitString(tgt, 3)
+			d.observe(tgt, 0)
+			if r.Chance(60) {
+				d.observe(3, 0)
+			}
 			d.tags["wbs"] = true
 		case 4:
 			// no room: the derived string has cap == len unless it was a Copy of a larger one
@@ -645,7 +789,7 @@ func genC06Derived(c *Ctx) {
 		d := buildDerived(r)
 		in := sx.L(d.ops...)
 		var tg []string
-		for _, k := range []string{"cell", "rbits", "rrem", "copy", "raw", "chain", "aligned", "odd", "zeros"} {
+		for _, k := range []string{"cell", "rbits", "rrem", "copy", "raw", "chain", "aligned", "odd", "zeros", "argcur"} {
 			if d.tags[k] {
 				tg = append(tg, k)
 			}
